@@ -1154,6 +1154,15 @@ def run(model, rep, tier):
     from rules.c06 import check_transfer, _OnlyRule
     check_transfer(model, _OnlyRule(rep, {'R06.4': 'R07.15'}))   # the ranges of the index-producing nodes behind searchsorted/argsort/take
     check_namespace_table(model, rep, oracle)
+    from rules import round4 as _r4
+    rep.rule('R07.17', 'numpy.cross: axis overrides axisa, axisb and axisc; numeric.inv visits every matrix of a batch; slice.indices() components all used in function.py')
+    _r4.check_cross_axis(model, rep, 'R07.17')
+    _r4.check_batch_loops(model, rep, 'R07.17')
+    _r4.check_slice_components(model, rep, 'R07.17', ('function',))
+    rep.rule('R07.18', 'a constant integer vector is rewritten to a Range only under a guard that proves unit steps (= R01.10)')
+    from rules.c01 import check_range_recognition
+    from rules.c03 import _Rename as _Rn
+    check_range_recognition(model, _Rn(rep, {'R01.10': 'R07.18'}))
     rep.require('R07.1', 55)
     rep.require('R07.2', 40)
     rep.require('R07.3', 3)
